@@ -89,6 +89,21 @@ fn check_case(case: &Value, stats: &mut Stats) -> CheckResult {
             return Err(Failure::new(format!("after {} from {}: {}", mv_desc(&lm), r.fen(), f.msg)));
         }
     }
+    // the successor by the null move (documented: flips the side to move): its text must be canonical and read back as
+    // the same board; what it does to the counters is not specified anywhere, so only the round trip is demanded
+    if !r.in_check(r.side) && kids.first().map_or(false, |k| k % 4 == 0) {
+        let mut nb = b.clone();
+        let _ = unsafe { owlchess::moves::make_move_unchecked(&mut nb, owlchess::Move::NULL) };
+        let text = nb.as_fen();
+        if let Err(e) = ref_from_fen(&text) {
+            fail!("after the null move from {}: output {:?} is not a canonical six-field FEN record: {}", r.fen(), text, e);
+        }
+        match Board::from_fen(&text) {
+            Ok(b2) => ensure!(b2 == nb && snapshot(&b2) == snapshot(&nb), "after the null move from {}: parse(format(b)) != b: {} vs {}", r.fen(), b2.as_fen(), text),
+            Err(e) => fail!("after the null move from {}: own output {:?} refused by Board::from_fen: {}", r.fen(), text, e),
+        }
+        stats.label("successor_by_null_move");
+    }
     Ok(())
 }
 
@@ -227,11 +242,11 @@ fn initial_driver(_ctx: &RunCtx, stats: &mut Stats, rep: &mut Reporter) {
 pub fn property() -> Property {
     Property {
         id: "C08",
-        rule: "positions: valid positions (19 sources): Board::from_fen(b.as_fen()) equals b in all six fields and in derived state; the text \
+        rule: "positions: valid positions (20 sources): Board::from_fen(b.as_fen()) equals b in all six fields and in derived state; the text \
                passes a strict canonical-FEN reader written independently (six fields, single spaces, no adjacent digits, KQkq order, plain \
                decimal counters) which must yield the reference position, and equals the reference writer's text; the same for two successors \
                built by make_move (one special move - promotion, castling, en passant, king or rook move, rook capture - and one arbitrary), \
-               which reach positions the validation gate never built. raw_boards: unvalidated \
+               which reach positions the validation gate never built, and the plain round trip for the successor by the null move. raw_boards: unvalidated \
                boards (5 sources) with a rank-consistent mark round-trip through RawBoard. texts: grammar-built FEN variants ('.' cells, \
                split runs, reversed rights, +5 / 007 counters, 4-7 fields), mutated canonical FENs and alphabet strings: for accepted text \
                parse(format(parse(s))) == parse(s) and format is a fixed point; canonical texts must be accepted with the independent \
@@ -253,7 +268,7 @@ pub fn property() -> Property {
                 driver: Driver::Generated { gen: gen_case, genome_len: 200, quick: 2_400_000, thorough: 19_200_000 },
                 check: check_case,
                 configs: Configs::ReleaseOnly,
-                required: &["ep_mark", "mark_on_a_file", "mark_on_h_file", "empty_rank", "full_rank", "multi_digit_counter", "black_to_move", "castling_right", "successor_position", "successor_by_promotion", "successor_by_king_capture"],
+                required: &["ep_mark", "mark_on_a_file", "mark_on_h_file", "empty_rank", "full_rank", "multi_digit_counter", "black_to_move", "castling_right", "successor_position", "successor_by_promotion", "successor_by_king_capture", "successor_by_null_move"],
                 regressions: &[],
                 exhaustive: false,
             },
